@@ -27,7 +27,7 @@ from .c01 import table_mismatch
 
 MODULES = ["ESV.Props.C15"]
 THEOREMS = [
-    "ESV.C15.cli_docshape", "ESV.C15.cli_accepts_documented", "ESV.C15.docShapeStr_documented",
+    "ESV.C15.cli_docshape", "ESV.C15.cli_settings_complete", "ESV.C15.cli_accepts_documented", "ESV.C15.docShapeStr_documented",
     "ESV.C15.cli_roundtrip", "ESV.C15.cli_build_positional", "ESV.C15.cli_positional", "ESV.C15.cli_conservative",
     "ESV.C15.cli_coroutines_named",
     "ESV.C15.cli_raw_positional", "ESV.C15.cli_raw_positional_only", "ESV.C15.cli_raw_positional_iff",
@@ -500,6 +500,129 @@ def lookup_case(run: core.Run, jt: dict, stats: Counter) -> None:
         run.violation("exit0_on_failure", "compile command without the lookup path exits 0 / prints output although the import cannot be resolved", dict(rep, lookup=[]))
 
 
+# ----------------------------------------------------------------------------------------------------------------------
+# settings documents ("Structure of settings" of the documentation) through both commands
+# ----------------------------------------------------------------------------------------------------------------------
+SETTINGS_PROGRAM = ("def 0 { a(); dungeon_mode(3) = DMODE_OPEN; $PERFORMANCE_PROGRESS_LIST[2] = 1; "
+                    "if ($PERFORMANCE_PROGRESS_LIST[1]) { b(); } return; }\ndef 1 for actor(ACTOR_X) { c(); hold; }")
+SETTINGS_ROUTINES = [{"type": "GENERIC", "ops": [{"opcode": "a", "params": []}, {"opcode": "flag_SetDungeonMode", "params": [3, 1]},
+                                                  {"opcode": "flag_SetPerformance", "params": [2, 1]}, {"opcode": "Return", "params": []}]}]
+DM_KEYS = ("open", "closed", "request", "open_request")
+EXC_RE = re.compile(r"^(Traceback|[A-Za-z_][\w.]*(Error|Exception)\b)")
+
+
+def settings_stream(rng: random.Random, quick: bool) -> list[dict]:
+    """[{"name", "settings_text", "expect": ok|reject|either, "part": name of the missing part, "value": parsed value or None}]
+    ok      the block is what the documentation asks for (additional members anywhere are allowed)
+    reject  exactly a documented member is missing at some level
+    either  a member has the wrong JSON type: the documentation does not say; only consistency is required"""
+    full = copy.deepcopy(SETTINGS["settings"])
+    dm = full["dungeon_mode_constants"]
+    out: list[dict] = []
+
+    def add(name: str, value: Any, expect: str, part: str | None = None, text: str | None = None) -> None:
+        out.append({"name": name, "settings_text": json.dumps(value) if text is None else text, "expect": expect, "part": part,
+                    "value": value if text is None else None})
+    add("complete", {"settings": full}, "ok")
+    add("complete_other_names", {"settings": {"performance_progress_list_var_name": "$PPL", "dungeon_mode_constants":
+                                              {"open_request": "OR", "request": "R", "closed": "C", "open": "O"}}}, "ok")
+    add("complete_extra_members", {"more": [1, {"x": None}], "settings": dict(full, extra=1.5, dungeon_mode_constants=dict(dm, extra="x"))}, "ok")
+    add("missing_settings", {}, "reject", "settings")
+    add("missing_settings_other_member", {"Settings": full, "routines": []}, "reject", "settings")
+    add("missing_performance_progress_list_var_name", {"settings": {k: v for k, v in full.items() if k != "performance_progress_list_var_name"}},
+        "reject", "performance_progress_list_var_name")
+    add("missing_dungeon_mode_constants", {"settings": {k: v for k, v in full.items() if k != "dungeon_mode_constants"}}, "reject", "dungeon_mode_constants")
+    add("empty_settings", {"settings": {}}, "reject", "performance_progress_list_var_name")
+    add("empty_dungeon_mode_constants", {"settings": dict(full, dungeon_mode_constants={})}, "reject", "dungeon_mode_constants")
+    for k in DM_KEYS:
+        add("missing_dmc_" + k, {"settings": dict(full, dungeon_mode_constants={x: v for x, v in dm.items() if x != k})}, "reject", "dungeon_mode_constants")
+        add("only_dmc_" + k, {"settings": dict(full, dungeon_mode_constants={k: dm[k]})}, "reject", "dungeon_mode_constants")
+        add("missing_dmc_" + k + "_with_extra", {"settings": dict(full, dungeon_mode_constants=dict({x: v for x, v in dm.items() if x != k}, **{k.upper(): "x"}))},
+            "reject", "dungeon_mode_constants")
+    for a_, b_ in ([("open", "closed"), ("request", "open_request")] if quick else [(a_, b_) for a_ in DM_KEYS for b_ in DM_KEYS if a_ < b_]):
+        add(f"missing_dmc_{a_}_{b_}", {"settings": dict(full, dungeon_mode_constants={x: v for x, v in dm.items() if x not in (a_, b_)})}, "reject", "dungeon_mode_constants")
+    # wrong JSON types
+    for v in (5, None, [], "performance_progress_list_var_name dungeon_mode_constants", ["performance_progress_list_var_name", "dungeon_mode_constants"]):
+        add("settings_is_" + type(v).__name__, {"settings": v}, "either")
+    for v in (None, 5, "x", [], "open closed request open_request", list(DM_KEYS)):
+        add("dmc_is_" + type(v).__name__ + ("_with_all_names" if v in ("open closed request open_request", list(DM_KEYS)) else ""),
+            {"settings": dict(full, dungeon_mode_constants=v)}, "either")
+    add("top_level_list", ["settings"], "either")
+    add("top_level_number", 7, "either")
+    add("perf_is_int", {"settings": dict(full, performance_progress_list_var_name=5)}, "either")
+    add("perf_is_null", {"settings": dict(full, performance_progress_list_var_name=None)}, "either")
+    add("dmc_value_is_int", {"settings": dict(full, dungeon_mode_constants=dict(dm, open=5))}, "either")
+    add("dmc_value_is_null", {"settings": dict(full, dungeon_mode_constants=dict(dm, open_request=None))}, "either")
+    add("not_json", None, "either", text="{\"settings\": ")
+    add("empty_file", None, "either", text="")
+    return out
+
+
+def diagnostic_ok(stderr_last: str, part: str | None) -> bool:
+    """the last line on stderr is a message about the missing part, not the last line of a Python traceback"""
+    if not stderr_last.strip() or EXC_RE.match(stderr_last.strip()):
+        return False
+    return part is None or (part if part != "settings" else "ettings") in stderr_last
+
+
+def settings_oracle(run: core.Run, case: dict, rt: dict, dd: dict | None, stats: Counter) -> None:
+    """rt: compile command (+ decompile command on its output) with this settings file; dd: decompile command on a document
+    whose settings member is this value"""
+    rep = {"settings_text": case["settings_text"], "text": SETTINGS_PROGRAM, "case": case["name"]}
+    cc = rt["compile"]
+    if cc.get("rc") is None:
+        run.notes.append(f"settings case {case['name']}: no answer")
+        return
+    rep.update(compile_rc=cc["rc"], compile_stderr=cc["stderr_last"], compile_stdout=cc["stdout"][:400])
+    exp = case["expect"]
+    stats["settings:" + exp] += 1
+    v = case["value"]
+    dmc = v["settings"].get("dungeon_mode_constants") if isinstance(v, dict) and isinstance(v.get("settings"), dict) else None
+    odd_dmc = exp == "either" and dmc is not None and not isinstance(dmc, dict)
+    if cc["rc"] == 0:
+        stats["settings_accepted"] += 1
+        if exp == "reject":
+            run.violation("exit0_with_incomplete_settings", f"compile command exits 0 although '{case['part']}' is incomplete in the settings file ({case['name']})", rep)
+        doc, perr = parse_stdout(cc["stdout"])
+        if perr is not None or not isinstance(doc, dict):
+            run.violation("stdout_not_json", f"settings case {case['name']}: compile command exits 0 but stdout is not one JSON document", rep)
+        else:
+            if exp == "ok" and doc.get("settings") != v["settings"]:
+                run.violation("settings_not_echoed", f"settings case {case['name']}: the settings member of the output differs from the settings block given", rep)
+            if exp == "ok" and doc_errors(doc):
+                run.violation("not_documented_structure", f"settings case {case['name']}: " + "; ".join(doc_errors(doc)[:2]), rep)
+        d = rt.get("decompile")
+        if d is not None and d.get("rc") is not None and d["rc"] != 0:
+            kind = "settings_dungeon_mode_constants_not_an_object_accepted" if odd_dmc else "decompile_rejects_compile_output"
+            run.violation(kind, f"settings case {case['name']}: the compile command exits 0 and the decompile command refuses its output: {d['stderr_last'][:120]}",
+                          dict(rep, decompile_rc=d["rc"], decompile_stderr=d["stderr_last"]))
+    else:
+        stats["settings_rejected"] += 1
+        if cc["stdout"].strip():
+            run.violation("json_printed_on_failure", f"settings case {case['name']}: compile command prints output and exits non-zero", rep)
+        if exp == "ok":
+            run.violation("exit_nonzero_on_success", f"compile command exits {cc['rc']} ({cc['stderr_last'][:100]}) with a complete settings file ({case['name']})", rep)
+        elif exp == "reject" and not diagnostic_ok(cc["stderr_last"], case["part"]):
+            run.violation("settings_rejected_without_diagnostic", f"compile command refuses the settings file ({case['name']}) without naming '{case['part']}': {cc['stderr_last'][:120]!r}", rep)
+        elif exp == "either" and EXC_RE.match(cc["stderr_last"].strip() or "x") and "JSONDecodeError" not in cc["stderr_last"]:
+            stats["settings_wrong_type_traceback"] += 1
+    if dd is None or dd.get("rc") is None:
+        return
+    rep2 = {"document": json.dumps(dict(v, routines=SETTINGS_ROUTINES)) if isinstance(v, dict) else None, "case": case["name"],
+            "decompile_rc": dd["rc"], "decompile_stderr": dd["stderr_last"]}
+    if dd["rc"] == 0:
+        if exp == "reject":
+            run.violation("exit0_with_incomplete_settings", f"decompile command exits 0 although '{case['part']}' is incomplete in the document ({case['name']})", rep2)
+    else:
+        if dd["stdout"].strip():
+            run.violation("text_printed_on_failure", f"settings case {case['name']}: decompile command prints output and exits non-zero", rep2)
+        if exp == "ok":
+            run.violation("decompile_rejects_documented_input", f"decompile command exits {dd['rc']} ({dd['stderr_last'][:100]}) on a document with complete settings ({case['name']})", rep2)
+        elif exp == "reject" and not diagnostic_ok(dd["stderr_last"], case["part"]):
+            run.violation("settings_rejected_without_diagnostic", f"decompile command refuses the document ({case['name']}) without naming '{case['part']}': {dd['stderr_last'][:120]!r}", rep2)
+
+
+
 def pmap(pool: core.Pool, fn: str, args: list, chunk: int, timeout: float, default: dict) -> list:
     """pool.map over chunks; a chunk without an answer yields `default` for each of its elements"""
     chunks = [args[i:i + chunk] for i in range(0, len(args), chunk)]
@@ -624,7 +747,18 @@ def run(run: core.Run) -> int:
         n_docs_cli = min(len(docs), len(rst_documents()) + n_docs_sub)
         dsub_flat = pmap(pool, "harness.impl_cli:cli_decompile_many", [{"doc_text": json.dumps(d["doc"]), "source_map": rng.random() < 0.2} for d in docs[:n_docs_cli]],
                          4, 600, noans)
+        # settings documents through both commands
+        sstream = settings_stream(rng, quick)
+        srt = pmap(pool, "harness.impl_cli:cli_roundtrip_many", [{"text": SETTINGS_PROGRAM, "settings_text": c["settings_text"]} for c in sstream],
+                   3, 600, {"compile": {"rc": None, "stdout": "", "stderr_last": "no answer"}})
+        sdirect_idx = [i for i, c in enumerate(sstream) if isinstance(c["value"], dict)]
+        sdd = pmap(pool, "harness.impl_cli:cli_decompile_many", [{"doc_text": json.dumps(dict(sstream[i]["value"], routines=SETTINGS_ROUTINES))} for i in sdirect_idx],
+                   3, 600, noans)
+        sdd_by = dict(zip(sdirect_idx, sdd))
+        for i, c in enumerate(sstream):
+            settings_oracle(run, c, srt[i], sdd_by.get(i), stats)
         mal = [{"doc": malform(rng, d["doc"]), "tag": "malformed"} for d in docs for _ in range(1)] if docs else []
+        mal += [{"doc": dict(sstream[i]["value"], routines=SETTINGS_ROUTINES), "tag": "gen" if sstream[i]["expect"] == "ok" else "malformed"} for i in sdirect_idx]
         mal += [{"doc": x, "tag": "malformed"} for x in ({}, {"settings": {}}, dict(SETTINGS), dict(SETTINGS, routines=[]))]
         n_mal_cli = min(len(mal), 12 if quick else 150)
         msub_flat = pmap(pool, "harness.impl_cli:cli_decompile_many", [{"doc_text": json.dumps(d["doc"])} for d in mal[:n_mal_cli]], 4, 600, noans)
@@ -844,7 +978,18 @@ def replay(run: core.Run, path: str) -> int:
     rp = data["replay"]
     jt = jump_table()
     bad: list[tuple[str, str]] = []
-    if "text" in rp:
+    if "settings_text" in rp:
+        for c in settings_stream(random.Random(0), False):
+            if c["settings_text"] == rp["settings_text"]:
+                break
+        else:
+            c = {"name": rp.get("case", "replay"), "settings_text": rp["settings_text"], "expect": "either", "part": None, "value": None}
+        st: Counter = Counter()
+        rt = impl_cli.cli_roundtrip({"text": rp.get("text", SETTINGS_PROGRAM), "settings_text": rp["settings_text"]})
+        dd = impl_cli.cli_decompile({"doc_text": json.dumps(dict(c["value"], routines=SETTINGS_ROUTINES))}) if isinstance(c["value"], dict) else None
+        run.violation = lambda kind, what, replay: bad.append((kind, what))  # type: ignore
+        settings_oracle(run, c, rt, dd, st)
+    elif "text" in rp:
         from .. import impl_es
         ref = impl_es.compile_text({"text": rp["text"]})
         s = impl_cli.cli_roundtrip({"text": rp["text"]})
